@@ -41,6 +41,8 @@ def run(ctx):
     from ..engines import sampler as U
     M.m6_product_enumeration(ctx)
     U.u7_parameter_ranges(ctx)
+    U.u8_absent_statistic_pinned(ctx)
+    ctx.floor("U8", 2)
     ctx.floor("M6", 2)
     ctx.floor("U7", 3)
     ctx.floor("V8", 1)
